@@ -320,15 +320,25 @@ fn main() {
                         runs.iter().map(|r| r.term.clone()).collect::<Vec<_>>().join("; ")
                     );
                     let shape_s = format!(
-                        "{}{} r{} {}{}{}{}",
+                        "{}{} {} {}{}",
                         if exhaustive { "exhaustive " } else { "" },
                         rkind,
-                        match range.len() { 0 => "0", 1..=3 => "1-3", 4..=8 => "4-8", _ => ">8" },
-                        if linear { "linear " } else { "" },
-                        if multi { "multi-culprit " } else { "" },
-                        if skips { "skips " } else { "" },
-                        if garbage { "inconsistent" } else { "" }
+                        match range.len() { 0 => "empty", 1..=5 => "small", _ => "large" },
+                        if linear { "chain " } else { "" },
+                        if multi { "multi-culprit" } else { "" },
                     );
+                    for r in &runs {
+                        ctx.count(if !r.monotone {
+                            "run: inconsistent outcome"
+                        } else if r.skips > 0 {
+                            "run: with skips"
+                        } else if r.culprits >= 2 {
+                            "run: multi-culprit, no skips"
+                        } else {
+                            "run: single culprit, no skips"
+                        });
+                    }
+                    let _ = (skips, garbage);
                     ctx.emit(i, term, range.len() >= 3 && evals >= 2, shape_s.trim());
                 }
                 None => {
